@@ -1,5 +1,5 @@
 (* C04: the finite marker matrix, closed by computation through the WHOLE model pipeline of each back end
-   (topsort, decision layer, reader), the refutation witnesses of the two recorded classes, and
+   (topsort, decision layer, reader), the refutation witness of the recorded class (Scala), the regression pins of the repaired one (TypeScript), and
    non-vacuity examples.
    Bound of the matrix (stated in the lemma): 6 languages x 10 base types x 18 cells
    (struct field and struct-variant field: Option depth 0..2 x has_default; newtype payload and alias
@@ -83,7 +83,7 @@ Definition c04m_bases : list rtype :=
 Lemma matrix_closed : forallb (fun L => forallb (c04m_ok L) c04m_bases) all_langs = true.
 Proof. vm_compute. reflexivity. Qed.
 
-(* ---------------- refutation witnesses of the recorded classes ---------------- *)
+(* ---------------- refutation witness of the recorded class, regression pins of the repaired class ---------------- *)
 Definition c04w_sc_cfg : sc_config := {| sc_package := lit "com.p"; sc_module_name := []; sc_type_mappings := []; sc_no_version_header := true; sc_version := [] |}.
 Definition c04w_field : rfield := c04m_field (lit "d") (RVec (RPrim PString)) true.
 
@@ -98,20 +98,35 @@ Proof. eexists. eexists. vm_compute. repeat split. Qed.
 Definition c04w_ts_cfg : ts_config := {| ts_type_mappings := []; ts_no_version_header := true; ts_version := [] |}.
 Definition c04w_double : rtype := ROption (ROption (RPrim PString)).
 
-(* C(Option<Option<String>>)  ->  `{ t: "C", c?: string }` ;  type A = Option<Option<String>>  ->  `string | undefined` *)
-Lemma ts_double_payload_refuted :
-  exists v st, ts_variant_of c04w_ts_cfg [] false (VTuple c04w_double {| vid := c04m_id (lit "C"); vcomments := [] |}) [] = Ok (v, st) /\
-    known_C04 TypeScript (c04_expect_of C04Payload c04w_double false (lit "string")) = Some "C04-ts-double-nonfield"%string /\
-    exists r, ts_c04_rows (TSUnion [] (lit "E") [] (lit "t") (lit "c") [v]) = [r] /\
-      good_C04 TypeScript (c04_expect_of C04Payload c04w_double false (lit "string")) (c04r_seen r) = false.
-Proof. eexists. eexists. vm_compute. repeat split. eexists. split; reflexivity. Qed.
+(* regression pins of the repaired class C04-ts-double-nonfield (typescript.rs write_type_alias / write_enum_variants wrote no
+   `| null`): C(Option<Option<String>>)  ->  `{ t: "C", c?: string | null }` ;  type A = Option<Option<String>>  ->
+   `string | null | undefined`; the position is outside every recorded class and good; with ONE Option layer the text has no `| null` *)
+Definition c04w_alias (t : rtype) : ritem :=
+  ItAlias {| aid := c04m_id (lit "A"); agenerics := []; atype := t; acomments := []; adecs := []; aredacted := false |}.
 
-Lemma ts_double_alias_refuted :
-  exists d st r, ts_decl_of uc_exec c04w_ts_cfg (ItAlias {| aid := c04m_id (lit "A"); agenerics := []; atype := c04w_double; acomments := []; adecs := []; aredacted := false |}) [] = Ok (d, st) /\
+Lemma ts_double_payload_fixed :
+  exists v st v1 st1,
+    ts_variant_of c04w_ts_cfg [] false (VTuple c04w_double {| vid := c04m_id (lit "C"); vcomments := [] |}) [] = Ok (v, st) /\
+    ts_variant_of c04w_ts_cfg [] false (VTuple (ROption (RPrim PString)) {| vid := c04m_id (lit "C"); vcomments := [] |}) [] = Ok (v1, st1) /\
+    ts_render_variant (lit "t") (lit "c") v = nl ++ [ch_tab] ++ lit "| { t: ""C"", c?: string | null }" /\
+    ts_render_variant (lit "t") (lit "c") v1 = nl ++ [ch_tab] ++ lit "| { t: ""C"", c?: string }" /\
+    known_C04 TypeScript (c04_expect_of C04Payload c04w_double false (lit "string")) = None /\
+    exists r, ts_c04_rows (TSUnion [] (lit "E") [] (lit "t") (lit "c") [v]) = [r] /\
+      c04s_null_union (c04r_seen r) = true /\
+      good_C04 TypeScript (c04_expect_of C04Payload c04w_double false (lit "string")) (c04r_seen r) = true.
+Proof. do 4 eexists. vm_compute. repeat split. eexists. repeat split. Qed.
+
+Lemma ts_double_alias_fixed :
+  exists d st d1 st1 r,
+    ts_decl_of uc_exec c04w_ts_cfg (c04w_alias c04w_double) [] = Ok (d, st) /\
+    ts_decl_of uc_exec c04w_ts_cfg (c04w_alias (ROption (RPrim PString))) [] = Ok (d1, st1) /\
+    ts_render_decl d = lit "export type A = string | null | undefined;" ++ nl ++ nl /\
+    ts_render_decl d1 = lit "export type A = string | undefined;" ++ nl ++ nl /\
     ts_c04_rows d = [r] /\
-    known_C04 TypeScript (c04_expect_of C04Alias c04w_double false (lit "string")) = Some "C04-ts-double-nonfield"%string /\
-    good_C04 TypeScript (c04_expect_of C04Alias c04w_double false (lit "string")) (c04r_seen r) = false.
-Proof. eexists. eexists. eexists. vm_compute. repeat split. Qed.
+    known_C04 TypeScript (c04_expect_of C04Alias c04w_double false (lit "string")) = None /\
+    c04s_null_union (c04r_seen r) = true /\
+    good_C04 TypeScript (c04_expect_of C04Alias c04w_double false (lit "string")) (c04r_seen r) = true.
+Proof. do 5 eexists. vm_compute. repeat split. Qed.
 
 (* ---------------- non-vacuity: the hypotheses of the back-end theorems are satisfiable on non-trivial inputs ---------------- *)
 Definition c04w_kt_cfg : kt_config := {| kt_package := lit "com.p"; kt_module_name := []; kt_prefix := lit "OP"; kt_type_mappings := [];
